@@ -62,7 +62,7 @@ def bounded_task():
             r2.replay = {"confirmed": True, "input": bad[0][0], "actual": repr(bad[0][1])[:300], "expected": repr(bad[0][2])[:300], "how": "real loaders"}
             r2.witness = bad[0][0]
         t2 = time.time()
-        bad3 = c15.argv_case()
+        bad3 = c15.argv_case() or c15.relative_project_file()
         r3 = OR(id=f"{PROP}.Bd.loaders.real_command_line_without_options", status=REFUTED if bad3 else PROVED, kind="Bd", role="bounded", target="ford.initialize (real argparse)",
                 desc="ford.initialize() with a real argv that names only the project file, the file (project metadata / fpm.toml) setting every switch and several valued options: "
                      "all of them keep the file's value", bound=f"{len(c15.FILE_VALUES)} options x 2 formats", cases=2 * len(c15.FILE_VALUES), seconds=time.time() - t2, backend="enumeration")
@@ -146,12 +146,34 @@ def from_string_task():
     return Task(f"{PROP}.S.from_string", PROP, "ford.settings.ExtraFileType.from_string", run)
 
 
+def paths_task():
+    """two call-site obligations on the path handling of the settings: (1) ProjectSettings.normalise_paths makes the directory of the project file absolute *before* it re-bases the
+    path options on it (the loop re-bases the `directory` field too: a relative one would be doubled, and every later field with it); (2) the final output directory is excluded from
+    the search for sources whatever replaced exclude_dir on the command line (shared with C12)."""
+    def run():
+        import ast
+        from contracts import confine
+        from bounded import c15
+        replay = lambda: (lambda b: {"confirmed": True, "input": b[0][0], "actual": repr(b[0][1])[:300], "expected": repr(b[0][2])[:300], "how": "ford.initialize() with a real argv"} if b else None)(c15.relative_project_file())
+        fn = loader.find_def("ford.settings", "ProjectSettings.normalise_paths")
+        sets = [n for n in fn.body if isinstance(n, ast.Assign) and any(ast.unparse(t) == "self.directory" for t in n.targets)]
+        loop = [i for i, n in enumerate(fn.body) if isinstance(n, ast.For)]
+        ok = len(sets) == 1 and ast.unparse(sets[0].value).endswith((".absolute()", ".resolve()")) and loop and fn.body.index(sets[0]) < loop[0]
+        r = OR(id=f"{PROP}.S.settings.normalise_paths.base_directory_is_absolute", status=PROVED if ok else REFUTED, kind="S", role="pre", backend="ast", target="ford.settings.ProjectSettings.normalise_paths",
+               desc=f"`{ast.unparse(sets[0])[:70] if sets else '?'}` before the loop over the path options: they are re-based on an absolute directory")
+        if not ok:
+            r.detail = "a project file named by a relative path with a directory part gets its path options re-based twice"
+            r.replay = replay()
+        return [r] + confine.output_dir_excluded(PROP, replay)
+    return Task(f"{PROP}.S.paths", PROP, "ford.settings / ford.parse_arguments", run)
+
+
 def build(tier, seed):
     set_tier(tier)
     def _meta():
         return metadata.meta_preprocessor(PROP)
     _meta.__name__ = "meta_preprocessor"
-    tasks = [a_task(PROP, settingsc.parse_to_dict), a_task(PROP, _meta), order_task(), argparse_task(), from_string_task(), bounded_task(),
+    tasks = [a_task(PROP, settingsc.parse_to_dict), a_task(PROP, _meta), order_task(), argparse_task(), from_string_task(), paths_task(), bounded_task(),
              Task(f"{PROP}.B.meta_patterns", PROP, "META_RE / META_MORE_RE", lambda: metadata.rx_obligations(PROP))]
     meta = {
         "trusted_base": TRUSTED_BASE,
